@@ -43,9 +43,6 @@ use crate::types::Segment;
 pub struct RaftLog<T: Types> {
     pub(crate) config: Arc<Config>,
 
-    /// Acquire the dir exclusive lock when writing to the log.
-    _dir_lock: FileLock,
-
     pub(crate) wal: RaftLogWAL<T>,
 
     pub(crate) state_machine: RaftLogStateMachine<T>,
@@ -56,6 +53,12 @@ pub struct RaftLog<T: Types> {
     removed_chunks: Vec<String>,
 
     access_stat: AccessStat,
+
+    /// Acquire the dir exclusive lock when writing to the log.
+    ///
+    /// Declared last so that it is released last: the lock must be held until
+    /// `wal` has been dropped, i.e., until the FlushWorker has quit.
+    _dir_lock: FileLock,
 }
 
 impl<T: Types> RaftLogWriter<T> for RaftLog<T> {
